@@ -1,11 +1,11 @@
-\* C20 thorough: plain object (expiring or not) + EC part (put order by parent ID) + tombstone, epochs
+\* C20 thorough: plain object + EC part (put order by parent ID) + tombstone, read and write faults
 SPECIFICATION Spec
 CONSTANTS
   NS = 2
-  MaxEpoch = 2
+  MaxEpoch = 1
   BugH6 = TRUE
-  CatSet = "c20x"
-  Ops = {"Put", "Bcast", "Delete", "Drop", "GC", "SetMode", "FailGet", "Epoch"}
+  CatSet = "c20"
+  Ops = {"Put", "Bcast", "Delete", "Drop", "GC", "SetMode", "FailGet", "FailPut"}
   Modes = {"rw", "ro", "dro"}
   HealthyLock = FALSE
   MaxInFlight = 1
